@@ -16,7 +16,7 @@
      power of two up to 2^64 (they agree below 2^48 - 1; above, the float formula can be one bit wider,
      never narrower). *)
 From Coq Require Import ZArith List Bool.
-Require Import Rig.Model.Base.
+Require Import Rig.Model.Base Rig.Generated.GenBitField.
 Import ListNotations.
 Open Scope Z_scope.
 
@@ -243,7 +243,10 @@ Definition add_field_gen (orig : bool) (st : state) (fv : fvals) (i : ident) (le
         end
     end.
 
-Definition add_field := add_field_gen false.
+(* [gen_range_orig] / [gen_scan_orig] are regenerated from the text of rig/bitfield.py on every run
+   (Generated/GenBitField.v): they say which of the two known shapes of the range test / the scan bound the
+   source has NOW, so every theorem about add_field / assign_fields is re-checked against the present code *)
+Definition add_field := add_field_gen gen_range_orig.
 Definition add_field_orig := add_field_gen true.      (* the code as found *)
 
 (* ------------------------------------------------------------------ BitField.__call__ *)
@@ -505,7 +508,7 @@ Definition assign_fields_gen (orig : bool) (st : state) : state * option Z :=
       (mkState L t s2 (s_insts st), e)
   end.
 
-Definition assign_fields := assign_fields_gen false.
+Definition assign_fields := assign_fields_gen gen_scan_orig.
 Definition assign_fields_orig := assign_fields_gen true.   (* the code as found, before fix df25254 *)
 
 (* ------------------------------------------------------------------ histories *)
